@@ -4,7 +4,7 @@
 # reproduced), "fixed" = hooks/C14-fix.patch applied. Flip to "fixed" in the same commit that lands the
 # fix in /repo and moves the four F2 entries of known_findings.json to status "fixed".
 import os
-MODEL_MODE = os.environ.get("VERIF_C14_MODE", "current")   # env override only for trying the fix in a scratch worktree
+MODEL_MODE = os.environ.get("VERIF_C14_MODE", "fixed")   # env override only for trying the fix in a scratch worktree
 
 P = "Dawgs.C14.Props."
 THEOREMS = {
